@@ -217,7 +217,7 @@ def split_sum(u):
     return None
 
 
-def instantiate_axioms(formulas, extra_terms=(), depth=2, pair_limit=14):
+def instantiate_axioms(formulas, extra_terms=(), depth=4, pair_limit=14, max_axioms=900, pairs=True):
     """Return (axioms, stats): ground instances of the theory axioms for the ex/lg/Phi/... terms
     occurring in `formulas` (DESIGN 2.4).  Every instance is a consequence of the real-analytic
     meaning of the function, so adding them is sound; completeness is not claimed."""
@@ -240,6 +240,8 @@ def instantiate_axioms(formulas, extra_terms=(), depth=2, pair_limit=14):
         exs = list(acc.get('ex', {}).values())
         lgs = list(acc.get('lg', {}).values())
         for u in exs:
+            if z3.is_app_of(u, z3.Z3_OP_ITE):
+                add(ex(u) == z3.If(u.arg(0), ex(u.arg(1)), ex(u.arg(2))))
             add(ex(u) > 0)
             add(lg(ex(u)) == u)
             add(z3.Implies(u == 0, ex(u) == 1))
@@ -262,18 +264,21 @@ def instantiate_axioms(formulas, extra_terms=(), depth=2, pair_limit=14):
             add(z3.Implies(x > 0, (x < 1) == (lg(x) < 0)))
             add(z3.Implies(x == 1, lg(x) == 0))
             add(z3.Implies(x == 10, lg(x) == 1))
-            if z3.is_mul(x) and x.num_args() == 2:
-                a, b = x.arg(0), x.arg(1)
-                add(z3.Implies(z3.And(a > 0, b > 0), lg(x) == lg(a) + lg(b)))
+            if z3.is_mul(x):
+                fs = x.children()
+                if len(fs) <= 5:
+                    add(z3.Implies(z3.And(*[f > 0 for f in fs]), lg(x) == z3.Sum([lg(f) for f in fs])))
             if z3.is_div(x):
                 a, b = x.arg(0), x.arg(1)
                 add(z3.Implies(z3.And(a > 0, b > 0), lg(x) == lg(a) - lg(b)))
-        if len(exs) <= pair_limit:
+            if z3.is_app_of(x, z3.Z3_OP_ITE):
+                add(lg(x) == z3.If(x.arg(0), lg(x.arg(1)), lg(x.arg(2))))
+        if pairs and len(exs) <= pair_limit:
             for i in range(len(exs)):
                 for j in range(i + 1, len(exs)):
                     u, v = exs[i], exs[j]
                     add((u < v) == (ex(u) < ex(v)))
-        if len(lgs) <= pair_limit:
+        if pairs and len(lgs) <= pair_limit:
             for i in range(len(lgs)):
                 for j in range(i + 1, len(lgs)):
                     x, y = lgs[i], lgs[j]
@@ -315,7 +320,7 @@ def instantiate_axioms(formulas, extra_terms=(), depth=2, pair_limit=14):
             add(z3.And(cos_(x) >= -1, cos_(x) <= 1))
         for x in acc.get('sin_', {}).values():
             add(z3.And(sin_(x) >= -1, sin_(x) <= 1))
-        if len(axioms) == before:
+        if len(axioms) == before or len(axioms) > max_axioms:
             break
     # LN10 enclosure (only matters if it occurs)
     add(z3.And(LN10 > RV(2.302585092994045), LN10 < RV(2.302585092994046)))
